@@ -12,10 +12,10 @@ from ..streams import ReadOnlySource
 
 PER_CLASS = {
     # property: (quick extra random trees, thorough random trees)
-    "C01": (3, 400),
-    "C02": (3, 400),
-    "C03": (4, 400),
-    "C05": (4, 400),
+    "C01": (10, 2500),
+    "C02": (10, 2500),
+    "C03": (10, 2500),
+    "C05": (10, 2500),
 }
 
 
